@@ -159,6 +159,30 @@ def shortcut_table(rep, F, rule='R-TABLE'):
     return n
 
 
+def _by_role(F, nf):
+    """the arguments of an impl_division(..) normal form in the order numerator, divisor, scale, precision, whatever
+    order the routine declares them in (roles by parameter type: BigInt by value, &BigInt, i64, u64)"""
+    fdiv = F.fns.get('impl_division')
+    m = re.match(r'^impl_division\((.*)\)$', nf)
+    if fdiv is None or not m:
+        return nf
+    args, depth, cur = [], 0, ''
+    for ch in m.group(1):
+        if ch == ',' and depth == 0:
+            args.append(cur)
+            cur = ''
+            continue
+        depth += ch in '([{'
+        depth -= ch in ')]}'
+        cur += ch
+    args.append(cur)
+    tys = fdiv.argtys()
+    roles = [[i for i, ty in enumerate(tys) if re.search(pat, ty)] for pat in (r'^(\w+::)*BigInt$', r'^&(\w+::)*BigInt$', r'^i64$', r'^u64$')]
+    if len(args) != len(tys) or any(len(r) != 1 for r in roles):
+        return nf
+    return 'impl_division(%s)' % ','.join(args[r[0]] for r in roles)
+
+
 def kernel_table(rep, F, rule='R-TABLE'):
     """the three decimal / decimal kernels (owned/owned, owned/ref, ref/ref): every non-panicking path is one of
          x == 0 or y == 1            -> x                         (exact)
@@ -201,7 +225,7 @@ def kernel_table(rep, F, rule='R-TABLE'):
                 elif not any(st in ('Eq(arg1.int_val,arg2.int_val)', 'Eq(arg2.int_val,arg1.int_val)') for st in eq):
                     probs.append('the shortcut returning +1 is not guarded by the equality of the two signed integers (guards: %s): operands of opposite sign with equal digits would divide to +1' % ([st for st, tv in strs if tv and st not in ('is_zero(arg2)',)][:2]))
                 continue
-            if re.match(r'^impl_division\((clone\()?arg1\.int_val\)?,arg2\.int_val,Sub\(arg1\.scale,arg2\.scale\),\d+\)$', nf):
+            if re.match(r'^impl_division\((clone\()?arg1\.int_val\)?,arg2\.int_val,Sub\(arg1\.scale,arg2\.scale\),\d+\)$', _by_role(F, nf)):
                 if extra:
                     probs.append('general path taken under an unrecognised test %s' % extra[0][:60])
                 continue
@@ -244,7 +268,13 @@ def run(ctx):
         rep.violation('R-SCALE', 'impl_division:missing', 'anchor function not found (fail closed)')
     else:
         rep.add_functions([fdiv.name])
-        v, msgs, paths = scale.analyse(fdiv, 'dims', scale_params=(3,), int_dims={1: ('par', 3)})
+        # the scale is the routine's only i64 parameter and the numerator its first big integer taken by value, wherever
+        # they stand in the parameter list
+        tys = fdiv.argtys()
+        i64s = [i for i, ty in enumerate(tys, 1) if ty == 'i64']
+        nums = [i for i, ty in enumerate(tys, 1) if re.search(r'(^|::)BigInt$', ty)]
+        sp, np_ = (i64s[0], nums[0]) if len(i64s) == 1 and nums else (3, 1)
+        v, msgs, paths = scale.analyse(fdiv, 'dims', scale_params=(sp,), int_dims={np_: ('par', sp)})
         a = scale.analyse.last
         key = fdiv.key + ':scale-bookkeeping'
         if v == 'ok' and getattr(a, 'loop_ok', 0) >= 2:
